@@ -167,6 +167,7 @@ func checkC17(c *Ctx, r *Report) {
 	if nGo < 2 {
 		r.Fail("C17-race", "found %d go statements with closures in package fbb, expected the two status reporters", nGo)
 	}
+	sessionFieldRule(c, r, "C17-owner")
 	r.NotCov = append(r.NotCov, "numeric range of BytesTransferred", "races inside the application's StatusUpdater or net.Conn implementation", "the *Proposal handed to UpdateStatus (escapes to the application)")
 }
 
@@ -463,5 +464,141 @@ func doneRule(c *Ctx, r *Report, fn *ssa.Function, goInstr ssa.Instruction, g *s
 		default:
 			o.OK("deferred close of %s registered directly after the go statement; it is the only close", strings.Join(chans, ","))
 		}
+	}
+}
+
+// sessionFieldRule: the reporter goroutines are never joined, so they can still run while the next
+// transfer is under way or after Exchange has returned. (a) Every field of the session they read
+// must not be written by anything the exchange itself executes; (b) the counters they report must
+// belong to the transfer (storage allocated by the spawning call), not to the session.
+func sessionFieldRule(c *Ctx, r *Report, rule string) {
+	const pkg = "fbb"
+	r.Rule(rule, 2, "reporter goroutines read only per-transfer counters and session fields the exchange never writes")
+	exch := c.Func(pkg, "(*Session).Exchange")
+	if exch == nil {
+		r.Fail(rule, "anchor Exchange not found")
+		return
+	}
+	reach := c.reach([]*ssa.Function{exch}, func(fn *ssa.Function) bool { return pkgRel(fn) == pkg })
+	isSessionPtr := func(t types.Type) bool {
+		p, ok := t.Underlying().(*types.Pointer)
+		if !ok {
+			return false
+		}
+		n := namedOf(p.Elem())
+		return n != nil && n.Obj().Name() == "Session"
+	}
+	fieldName := func(fa *ssa.FieldAddr) string {
+		st, ok := fa.X.Type().Underlying().(*types.Pointer).Elem().Underlying().(*types.Struct)
+		if !ok {
+			return ""
+		}
+		return st.Field(fa.Field).Name()
+	}
+	// writes to session fields by code the exchange executes
+	writes := map[string]string{}
+	for fn := range reach {
+		eachInstr(fn, func(_ *ssa.BasicBlock, _ int, in ssa.Instruction) {
+			fa, ok := in.(*ssa.FieldAddr)
+			if !ok || !isSessionPtr(fa.X.Type()) {
+				return
+			}
+			for _, ref := range *fa.Referrers() {
+				if st, ok := ref.(*ssa.Store); ok && st.Addr == ssa.Value(fa) {
+					writes[fieldName(fa)] = c.pos(st.Pos()) + " in " + fnName(fn)
+				}
+			}
+		})
+	}
+	nGo := 0
+	for _, fn := range c.SrcFuncs(pkg) {
+		eachInstr(fn, func(_ *ssa.BasicBlock, _ int, instr ssa.Instruction) {
+			g, ok := instr.(*ssa.Go)
+			if !ok {
+				return
+			}
+			mc, ok := g.Call.Value.(*ssa.MakeClosure)
+			if !ok {
+				return
+			}
+			nGo++
+			cf := mc.Fn.(*ssa.Function)
+			var gfns []*ssa.Function
+			var collect func(f *ssa.Function)
+			collect = func(f *ssa.Function) {
+				gfns = append(gfns, f)
+				for _, a := range f.AnonFuncs {
+					collect(a)
+				}
+			}
+			collect(cf)
+			// (a) session fields read in the goroutine
+			read := map[string]token.Pos{}
+			for _, gf := range gfns {
+				eachInstr(gf, func(_ *ssa.BasicBlock, _ int, in ssa.Instruction) {
+					fa, ok := in.(*ssa.FieldAddr)
+					if !ok || !isSessionPtr(fa.X.Type()) {
+						return
+					}
+					if _, seen := read[fieldName(fa)]; !seen {
+						read[fieldName(fa)] = fa.Pos()
+					}
+				})
+			}
+			var names []string
+			for n := range read {
+				names = append(names, n)
+			}
+			sort.Strings(names)
+			for _, n := range names {
+				o := r.Add(rule, fnName(fn), "goroutine reads Session."+n, c.pos(read[n]))
+				if w, isWritten := writes[n]; isWritten {
+					o.Bad("the reporter goroutine reads Session.%s, which is written at %s - code the exchange itself runs while the un-joined goroutine may still be reporting (data race; a final report can be lost)", n, w)
+				} else {
+					o.OK("never written by code reachable from Exchange")
+				}
+			}
+			// (b) counters reported belong to this transfer
+			for _, gf := range gfns {
+				for _, ci := range allCalls(gf) {
+					if !ci.Common().IsInvoke() || ci.Common().Method.Name() != "UpdateStatus" {
+						continue
+					}
+					o := r.Add(rule, fnName(gf), "counter reported by "+c.exprAt(gf, ci.Pos()), c.pos(ci.Pos()))
+					bad := ""
+					dependsOn(ci.Common().Args[0], func(x ssa.Value) bool {
+						call, ok := x.(*ssa.Call)
+						if !ok || !strings.HasPrefix(callName(&call.Call), "sync/atomic.") || len(call.Call.Args) == 0 {
+							return false
+						}
+						// the object loaded from: a free variable bound to a local of the spawner is fine
+						root := call.Call.Args[0]
+						for {
+							switch y := root.(type) {
+							case *ssa.FieldAddr:
+								if isSessionPtr(y.X.Type()) {
+									bad = "Session." + fieldName(y)
+								}
+								root = y.X
+								continue
+							case *ssa.UnOp:
+								root = y.X
+								continue
+							}
+							break
+						}
+						return false
+					})
+					if bad != "" {
+						o.Bad("the count reported comes from %s, a counter that lives as long as the session: a reporter that runs late (it is never joined) reports the next transfer's count for its own message - BytesTransferred outside [0, BytesTotal]", bad)
+					} else {
+						o.OK("the counters loaded belong to the spawning call")
+					}
+				}
+			}
+		})
+	}
+	if nGo < 2 {
+		r.Fail(rule, "found %d go statements in package fbb, expected the two status reporters", nGo)
 	}
 }
